@@ -37,7 +37,7 @@ cSensors == SensorPool
 cReadings == ReadingPool
 cOpsAll == {"add","sub","mul","div","neg","pow2","pow3","sin","cos","exp","tanh","atan","sqrt1","log1","tan","asinb","acosb","muldt","abs1"}
 \* |.| written as sqrt(.^2) around shared compound terms that take both signs
-cOpsAbs == {"add","sub","mul","neg","abs1"}
+cOpsAbs == {"add","sub","mul","neg","abs1","muldt"}      \* (|e dt| at negative steps: the sign of dt is not known to anyone)
 \* a USER function (Config.python_modules) inside shared sub-terms
 cOpsSat == {"add", "mul", "usat"}
 cOpsRat == {"add","sub","mul","div","neg","pow2","muldt"}
